@@ -513,6 +513,26 @@ def combinator_catalogue():
     C.append({"op": "EmbedCondition", "raw_cond_shape": (5,),
               "child": {"op": "Coupling", "dim": 3, "untransformed_dim": 2, "cond_dim": 2, "transformer": rq, "nn_width": 4, "nn_depth": 1}})
     C.append({"op": "EmbedCondition", "raw_cond_shape": (2, 3), "child": {"op": "AdditiveCondition", "shape": (3,), "cond_shape": (2,)}})
+    # every kind of *unconditional* member next to a conditional sibling: it receives a condition it has to ignore
+    aff = lambda sh: {"op": "Affine", "shape": sh}
+    unconds = [
+        ({"op": "Reshape", "shape": (6,), "child": aff((2, 3))}, (6,)),
+        ({"op": "Reshape", "shape": (2, 3), "child": {"op": "Chain", "args": [aff((6,)), {"op": "Tanh", "shape": (6,)}]}}, (2, 3)),
+        ({"op": "Partial", "idxs": {"ints": [0, 2]}, "shape": (3,), "child": {"op": "Exp", "shape": (2,)}}, (3,)),
+        ({"op": "Invert", "child": {"op": "TriangularAffine", "dim": 3, "lower": True}}, (3,)),
+        ({"op": "Vmap", "mode": "size", "n": 3, "child": {"op": "LeakyTanh", "max_val": 1, "shape": ()}}, (3,)),
+        ({"op": "Scan", "n": 2, "child": aff((3,))}, (3,)),
+        ({"op": "Concatenate", "axis": 0, "args": [aff((2,)), {"op": "SoftPlus", "shape": (1,)}]}, (3,)),
+        ({"op": "Stack", "axis": 0, "args": [aff((3,)), {"op": "Loc", "shape": (3,)}]}, (2, 3)),
+        ({"op": "Permute", "shape": (3,)}, (3,)), ({"op": "Flip", "shape": (3,)}, (3,)),
+        ({"op": "Vmap", "mode": "size", "n": 3, "child": {"op": "RQS", "knots": 3, "interval": 2}}, (3,)),
+        ({"op": "Planar", "dim": 3, "negative_slope": 0.4}, (3,)),
+        ({"op": "BNAF", "dim": 3, "cond_dim": None, "depth": 1, "block_dim": 2}, (3,)),
+    ]
+    for u, sh in unconds:
+        C.append({"op": "Chain", "args": [{"op": "AdditiveCondition", "shape": sh, "cond_shape": (2,)}, u]})
+    C.append({"op": "Stack", "axis": 0, "args": [{"op": "AdditiveCondition", "shape": (6,), "cond_shape": (2,)}, unconds[0][0]]})
+    C.append({"op": "Concatenate", "axis": 0, "args": [{"op": "AdditiveCondition", "shape": (2,), "cond_shape": (3,)}, unconds[2][0], unconds[5][0]]})
     return C
 
 
